@@ -19,7 +19,22 @@ import (
 )
 
 // file datasource: sequences of file-system events delivered through the fake watcher.
-var fileOps = []string{"write-A", "write-B", "write-garbage", "truncate", "chmod", "replace-with-B", "rename-away", "remove"}
+var fileOps = []string{"write-A", "write-B", "write-big", "write-garbage", "truncate", "chmod", "replace-with-B", "rename-away", "remove"}
+
+// bigPayload: a valid rule list of more than 1 MiB (1100 rules with long resource names) - size is no reason
+// for a file's content not to take effect
+var bigPayload = func() string {
+	var b strings.Builder
+	b.WriteString("[")
+	for i := 0; i < 1100; i++ {
+		if i > 0 {
+			b.WriteString(",")
+		}
+		fmt.Fprintf(&b, `{"id":"big%d","resource":"%s%d","threshold":5}`, i, strings.Repeat("r", 1000), i)
+	}
+	b.WriteString("]")
+	return b.String()
+}()
 
 func scratch() string {
 	if st, err := os.Stat("/dev/shm"); err == nil && st.IsDir() {
@@ -80,6 +95,10 @@ func runFileSeq(root string, seqOps []int) string {
 			w.VerifInject(vfs.Event{Name: path, Op: vfs.Write})
 		case "write-B":
 			content = m.P2
+			_ = os.WriteFile(path, []byte(content), 0o644)
+			w.VerifInject(vfs.Event{Name: path, Op: vfs.Write})
+		case "write-big":
+			content = bigPayload
 			_ = os.WriteFile(path, []byte(content), 0o644)
 			w.VerifInject(vfs.Event{Name: path, Op: vfs.Write})
 		case "write-garbage":
@@ -158,7 +177,7 @@ func fileDatasource(c *props.Ctx) {
 		if len(cur) == depth {
 			return
 		}
-		if len(cur) > 0 && cur[len(cur)-1] >= 6 {
+		if len(cur) > 0 && (fileOps[cur[len(cur)-1]] == "rename-away" || fileOps[cur[len(cur)-1]] == "remove") {
 			return // terminal event
 		}
 		for o := range fileOps {
